@@ -42,6 +42,7 @@ struct Perturb {
     size_t capMode = 0;       // 0 roomy, 1 small fixed, 2 varying from tape values
     std::vector<size_t> caps;
     int nbWorkers = -1;       // override (only among >=1)
+    bool adjacentPrefix = false;   // prefix placed immediately in front of the source (only with ZSTD_c_deterministicRefPrefix=1, which promises independence from that)
 };
 
 static bool run_target(vf::Ctx& c, ZSTD_CCtx* cctx, const Target& T, const Perturb& P, std::vector<uint8_t>& out, std::string* err, unsigned* excluded = nullptr) {
@@ -59,11 +60,18 @@ static bool run_target(vf::Ctx& c, ZSTD_CCtx* cctx, const Target& T, const Pertu
     vf::Buf srcbuf(T.x.size() + P.srcOff + 1);
     uint8_t* src = srcbuf.p + P.srcOff;
     if (!T.x.empty()) memcpy(src, T.x.data(), T.x.size());
-    vf::Buf dictbuf(T.dict.data(), T.dict.size());   // its own block: never adjacent to the source
+    vf::Buf dictbuf(T.dict.data(), T.dict.size());   // its own block: not adjacent to the source ...
+    // ... except when asked to be: one block [prefix][source]
+    vf::Buf both((P.adjacentPrefix && T.dictMode == 2) ? T.dict.size() + T.x.size() + 1 : 0);
+    if (P.adjacentPrefix && T.dictMode == 2) {
+        if (!T.dict.empty()) memcpy(both.p, T.dict.data(), T.dict.size());
+        if (!T.x.empty()) memcpy(both.p + T.dict.size(), T.x.data(), T.x.size());
+        src = both.p + T.dict.size();
+    }
     ZSTD_CDict* cd = nullptr;
     struct CG { ZSTD_CDict*& d; ~CG() { if (d) ZSTD_freeCDict(d); } } cg{cd};
     if (T.dictMode == 1) r = ZSTD_CCtx_loadDictionary(cctx, dictbuf.p, dictbuf.n);
-    else if (T.dictMode == 2) r = ZSTD_CCtx_refPrefix(cctx, dictbuf.p, dictbuf.n);
+    else if (T.dictMode == 2) r = (P.adjacentPrefix ? ZSTD_CCtx_refPrefix(cctx, both.p, T.dict.size()) : ZSTD_CCtx_refPrefix(cctx, dictbuf.p, dictbuf.n));
     else if (T.dictMode == 3) { cd = ZSTD_createCDict(dictbuf.p, dictbuf.n, T.ps.get(ZSTD_c_compressionLevel, 3)); if (!cd) { *err = "createCDict"; return false; } r = ZSTD_CCtx_refCDict(cctx, cd); }
     if (ZSTD_isError(r)) { *err = std::string("dict: ") + ZSTD_getErrorName(r); return false; }
     size_t bound = ZSTD_compressBound(T.x.size()) + 1024 + 32 * T.steps.size();
@@ -191,6 +199,8 @@ void vf_case(vf::Ctx& c) {
     T.dictMode = (int)t.weighted({6, 2, 1, 1});
     if (T.api >= 2) T.dictMode = 0;
     if (T.dictMode) { if (t.flip()) T.dict = g_golden_dict; else { gen::ContentInfo di; T.dict = gen::gen_content_sized(t, (size_t)t.range(8, 60000), &di); } if (T.dictMode == 2 && T.dict.size() > 8 && T.dict[0] == 0x37) T.dict[0] = 0x38; }
+    bool detPrefix = T.dictMode == 2 && t.chance(60);
+    if (detPrefix) T.ps.v.push_back({ZSTD_c_deterministicRefPrefix, 1, "deterministicRefPrefix"});
     unsigned ns = (T.api == 0 || T.api == 3) ? (unsigned)t.range(0, 6) : 0;
     for (unsigned i = 0; i < ns; i++) T.steps.push_back({se::gen_chunk(t), (int)t.chance(35)});
     T.pledge = T.api == 0 && t.chance(25);
@@ -239,6 +249,7 @@ void vf_case(vf::Ctx& c) {
     if (P.capMode) { unsigned k = (unsigned)t.range(1, 6); for (unsigned i = 0; i < k; i++) P.caps.push_back(se::gen_chunk(t, 131072, false)); }
     if (getenv("VF_NO_CAPS")) P.capMode = 0;
     if (mt) P.nbWorkers = (int)t.pick<int>({1, 2, 3, 4, 8});
+    if (detPrefix && t.chance(70)) { P.adjacentPrefix = true; c.label("prefix_adjacent_to_source"); }
     c.note("P{ctx=%s history=%u srcOff=%zu dstOff=%zu caps=%zu/%zu workers=%d}", kind == 1 ? "static" : kind == 2 ? "garbage-alloc" : kind == 3 ? "fresh" : "reused", nh, P.srcOff, P.dstOff, P.capMode, P.caps.size(), P.nbWorkers);
     unsigned excl = 0;
     if (!run_target(c, b, T, P, got, &err, &excl)) {
